@@ -136,25 +136,25 @@ fn one_seq<const N: usize>(cx: &mut Ctx, seq: &[usize], nk: usize) {
     if !seq.is_empty() {
         cx.nontrivial += 1;
     }
-    // Map::from_iter
-    {
+    // Map::from_iter, for every (honest) size_hint behaviour of the source
+    for hint in 0..mc::survivor::HINTS {
         pl::reset();
-        cx.here.op = "Map::from_iter".into();
+        cx.here.op = format!("Map::from_iter (source size_hint kind {hint})");
         let items = mk_items(seq, nk);
         let ds: Vec<(KD, VD)> = items.iter().map(|(k, v)| (k.desc(), v.desc())).collect();
         let f = fold(&ds, N);
-        let (src, calls) = Src::new(items);
+        let (src, calls) = Src::with_hint(items, hint);
         let res = catch_unwind(AssertUnwindSafe(|| src.collect::<Map<Kx, Vx, N>>()));
         judge_map::<N>(cx, "Map::from_iter", res, &f, Some(calls.get()), seq.len());
     }
     // Set::from_iter (values ignored)
-    {
+    for hint in 0..mc::survivor::HINTS {
         pl::reset();
-        cx.here.op = "Set::from_iter".into();
+        cx.here.op = format!("Set::from_iter (source size_hint kind {hint})");
         let items: Vec<Kx> = seq.iter().enumerate().map(|(i, c)| Kx::new((c % nk) as u8, (i % 2) as u8)).collect();
         let ds: Vec<(KD, VD)> = items.iter().map(|k| (k.desc(), VD { id: pl::NOID, v: 0 })).collect();
         let f = fold(&ds, N);
-        let (src, calls) = Src::new(items);
+        let (src, calls) = Src::with_hint(items, hint);
         let res = catch_unwind(AssertUnwindSafe(|| src.collect::<Set<Kx, N>>()));
         judge_set::<N>(cx, "Set::from_iter", res, &f, Some(calls.get()), seq.len());
     }
@@ -187,9 +187,10 @@ fn one_seq<const N: usize>(cx: &mut Ctx, seq: &[usize], nk: usize) {
     }
     // Set::extend: the first `cut` items build the set one by one, the rest is extended in bulk;
     // also Extend<&T> on a plain Copy element type
-    for cut in 0..=seq.len() {
+    for cut_hint in 0..(seq.len() + 1) * mc::survivor::HINTS as usize {
+        let (cut, hint) = (cut_hint / mc::survivor::HINTS as usize, (cut_hint % mc::survivor::HINTS as usize) as u8);
         pl::reset();
-        cx.here.op = format!("Set::extend (first {cut} items inserted singly)");
+        cx.here.op = format!("Set::extend (first {cut} items inserted singly; source size_hint kind {hint})");
         let items: Vec<Kx> = seq.iter().enumerate().map(|(i, c)| Kx::new((c % nk) as u8, (i % 2) as u8)).collect();
         let ds: Vec<(KD, VD)> = items.iter().map(|k| (k.desc(), VD { id: pl::NOID, v: 0 })).collect();
         let f = fold(&ds, N);
@@ -203,7 +204,7 @@ fn one_seq<const N: usize>(cx: &mut Ctx, seq: &[usize], nk: usize) {
             s.insert(k);
         }
         let n_rest = rest.len();
-        let (src, calls) = Src::new(rest);
+        let (src, calls) = Src::with_hint(rest, hint);
         let res = catch_unwind(AssertUnwindSafe(move || {
             s.extend(src);
             s
@@ -211,6 +212,9 @@ fn one_seq<const N: usize>(cx: &mut Ctx, seq: &[usize], nk: usize) {
         let pulls = calls.get();
         let f2 = Fold { m: f.m.clone(), overflow_at: f.overflow_at.map(|i| i - cut) };
         judge_set::<N>(cx, "Set::extend", res, &f2, Some(pulls), n_rest);
+        if hint != 0 {
+            continue;
+        }
         // Extend<&T> with T = u8
         let plain: Vec<u8> = seq.iter().map(|c| (c % nk) as u8).collect();
         let mut ps = Set::<u8, N>::new();
